@@ -39,8 +39,9 @@ MatchRun == /\ phase = "validate" /\ pending # <<>> /\ k <= Len(E.ran)
             /\ Head(pending).name = E.ran[k]
             /\ Run /\ k' = k + 1 /\ UNCHANGED tid
 Stuck == /\ phase = "validate"
-         /\ \/ pending # <<>> /\ (k > Len(E.ran) \/ Head(pending).name # E.ran[k])
-            \/ pending = <<>> /\ k <= Len(E.ran)
+         \* IF, not \/: TLC splits a disjunction of an action into sub-actions and evaluates each alone
+         /\ IF pending # <<>> THEN (IF k > Len(E.ran) THEN TRUE ELSE Head(pending).name # E.ran[k])
+            ELSE k <= Len(E.ran)
          /\ PrintT(<<"MISMATCH", E.id, "ran">>)
          /\ NextExec
 EndExec == /\ phase = "validate" /\ pending = <<>> /\ k > Len(E.ran)
